@@ -8,7 +8,8 @@ IMPORTS = 'Model.Base Model.Num Model.Arith Model.ExprParser Model.Script Model.
 
 # ------------------------------------------------------------------ value specs
 def vint(n):
-    return ['int', str(int(n))]
+    n = int(n)
+    return ['int', str(n) if abs(n) < 10 ** 300 else hex(n)]        # (CPython refuses to print very long ints in decimal)
 
 
 def vflt(x):
@@ -48,7 +49,7 @@ def sample_values(r, pool, depth=2):
 # ------------------------------------------------------------------ Coq encodings
 def num_coq(spec):
     if spec[0] == 'int':
-        return f'(NInt {cZ(int(spec[1]))})'
+        return f'(NInt {cZ(int(spec[1], 0))})'
     return f'(NFlt {cflt(float.fromhex(spec[1]))})'
 
 
@@ -106,9 +107,7 @@ def tree_coq(t):
     if k == 'bool':
         return f'(TBool {cbool(t[1])})'
     if k == 'int':
-        if t[1].startswith('huge'):
-            raise Unencodable(k)
-        return f'(TNum (NInt {cZ(int(t[1]))}))'
+        return f'(TNum (NInt {cZ(int(t[1], 0))}))'
     if k == 'flt':
         return f'(TNum (NFlt {cflt(float.fromhex(t[1]))}))'
     if k == 'str':
@@ -186,7 +185,7 @@ def py_of_spec(spec, pool=None):
     if k == 'bool':
         return bool(spec[1])
     if k == 'int':
-        return int(spec[1])
+        return int(spec[1], 0)
     if k == 'flt':
         return float.fromhex(spec[1])
     if k == 'str':
@@ -223,7 +222,11 @@ def plain_of_tree(t):
     if k == 'bool':
         return bool(t[1])
     if k == 'int':
-        return float(int(t[1])) if not t[1].startswith('huge') else ('hugeint', t[1])
+        v = int(t[1], 0)
+        try:
+            return float(v)
+        except OverflowError:
+            return v
     if k == 'flt':
         return float.fromhex(t[1])
     if k == 'str':
